@@ -11,7 +11,7 @@ NEEDS = ('threads', 'proc')
 QUICK = dict(runs=5000, wall=85)
 THOROUGH = dict(runs=300000, wall=1500)
 RULE = ('target ending in {return v (int / None / bytes larger than the pipe), raise E(args) (builtin and custom classes), sys.exit(code) for '
-        'code in {None,0,1,3,"msg"}} for mpservice Process (simulated process boundary) and mpservice.threading.Thread; for processes a '
+        'code in {None,0,1,3,"msg"}, return / raise with a payload that cannot be pickled} for mpservice Process (simulated process boundary) and mpservice.threading.Thread; for processes a '
         'kill (SIGKILL / SIGTERM) delivered at scheduler step s of the child, s drawn uniformly over the whole life of the child (before '
         'the target runs, during it, between the two result sends, after both) or at a named phase; accessor order generated over '
         '{join, join(timeout), result, exception, done, exitcode, wait, as_completed} from one or two parent threads; pipe capacity varied')
@@ -36,6 +36,11 @@ def gen(rng, tier):
         sc['exc'] = rng.choice(['ExcA', 'ExcB', 'ExcC', 'KeyError', 'ZeroDivisionError', 'ExcD', 'UnicodeDecodeError'])
     else:
         sc['code'] = rng.choice(['none', 0, 1, 3, 'msg'])
+    if kind == 'process' and ending != 'exit' and rng.random() < 0.12:
+        # the value (or the exception's payload) cannot be sent to the parent: still a way for the target to end
+        sc['unpicklable'] = True
+    if kind == 'process' and rng.random() < 0.5:
+        sc['via_kwargs'] = True  # arguments passed as a kwargs dict that the caller keeps
     if kind == 'process' and rng.random() < 0.45:
         sc['kill'] = {'sig': rng.choice([9, 9, 15]), 'mode': rng.choice(['step', 'step', 'step', 'phase', 'time'])}
         sc['kill']['step'] = rng.choice(list(range(0, 80)) + list(range(80, 240, 8)))
@@ -59,12 +64,15 @@ def shrink(sc):
         yield dict(sc, dur=0)
     if sc.get('value') == 'big':
         yield dict(sc, value='int')
+    for key in ('via_kwargs', 'unpicklable'):
+        if sc.get(key):
+            yield {k: v for k, v in sc.items() if k != key}
     if sc.get('kill') and sc['kill']['mode'] == 'step' and sc['kill']['step'] > 0:
         yield dict(sc, kill=dict(sc['kill'], step=sc['kill']['step'] // 2))
 
 
 def tags(sim, sc, obs):
-    t = ['kind:' + sc['kind'], 'ending:' + sc['ending']]
+    t = ['kind:' + sc['kind'], 'ending:' + sc['ending'] + ('-unpicklable' if sc.get('unpicklable') else '')]
     if sc.get('kill'):
         t.append('kill:sig%d:%s' % (sc['kill']['sig'], obs.get('kill_phase', 'not-delivered')))
     for a in sc['accessors']:
@@ -98,8 +106,12 @@ def target(sc):
         time.sleep(sc['dur'])
     s.ctx['target_done_step'] = me.steps
     if sc['ending'] == 'return':
+        if sc.get('unpicklable'):
+            return lambda: 1
         return value_of(sc)
     if sc['ending'] == 'raise':
+        if sc.get('unpicklable'):
+            raise ValueError('payload cannot be pickled', lambda: 1)
         if sc['exc'] == 'UnicodeDecodeError':
             b'\xff'.decode()
         raise make_exc(sc['exc'], 7)
@@ -120,7 +132,10 @@ def run(sim, sc):
     from sim import osproc
     sim.ctx = {}
     is_proc = sc['kind'] == 'process'
-    if is_proc:
+    caller_kwargs = {'sc': sc}  # stays referenced by this frame for the whole run, as a caller's job record would
+    if is_proc and sc.get('via_kwargs'):
+        w = Process(target=target, kwargs=caller_kwargs, name='harness-child')
+    elif is_proc:
         w = Process(target=target, args=(sc,), name='harness-child')
     else:
         w = mth.Thread(target=target, args=(sc,), name='harness-target-thread')
@@ -232,7 +247,9 @@ def run(sim, sc):
         killed['phase'] = killed['phase'] or kill['phase']
         killed['after_target'] = kill['phase'] == 'finishing'
     ending = sc['ending']
-    if ending == 'return':
+    if sc.get('unpicklable') and is_proc:
+        want = ('error', '*')  # which error is not specified; that it is an error, that all accessors say so, and in bounded time, is
+    elif ending == 'return':
         want = ('value', value_of(sc))
     elif ending == 'raise':
         want = ('error', sc['exc'])
@@ -259,7 +276,7 @@ def run(sim, sc):
 
     def acceptable(o):
         for a in accept:
-            if a[0] == o[0] and (a[1] == o[1] if a[0] == 'value' else a[1] == o[1]):
+            if a[0] == o[0] and (a[1] == o[1] or (a[0] == 'error' and a[1] == '*')):
                 return True
         return False
 
@@ -282,7 +299,7 @@ def run(sim, sc):
                               {'got': repr(o)[:200], 'accept': repr(accept)[:200], 'killed': killed})
             else:
                 seen.append(o if o[0] == 'error' else ('value', None))
-                if kind == 'raised' and is_proc and o[1] != 'OSError' and ending == 'raise':
+                if kind == 'raised' and is_proc and o[1] != 'OSError' and ending == 'raise' and not sc.get('unpicklable'):
                     e = detail
                     if sc['exc'] != 'UnicodeDecodeError' and tuple(e.args) != tuple(make_exc(sc['exc'], 7).args):
                         sim.violation('error:args-not-preserved', {'got': repr(e.args), 'want': repr(make_exc(sc['exc'], 7).args)})
@@ -296,7 +313,7 @@ def run(sim, sc):
             else:
                 sim.violation('accessor:exception-timed-out-without-timeout', {})
                 continue
-            if not any(x[0] == o[0] and (o[0] == 'value' or x[1] == o[1]) for x in accept):
+            if not any(x[0] == o[0] and (o[0] == 'value' or x[1] == o[1] or x[1] == '*') for x in accept):
                 sim.violation('exception:reported-%s-instead-of-%s' % (o[0], '/'.join(sorted(set(x[0] for x in accept)))),
                               {'got': repr(o)[:200], 'accept': repr(accept)[:200], 'killed': killed})
             else:
@@ -323,7 +340,7 @@ def run(sim, sc):
                 sim.violation('exitcode:wrong-after-kill', {'exitcode': ec, 'sig': kill['sig']})
         else:
             want_ec = 0 if want[0] == 'value' else (sc['code'] if (ending == 'exit' and isinstance(sc.get('code'), int)) else 1)
-            if ec != want_ec:
+            if ec != want_ec and not (sc.get('unpicklable') and ec not in (0, None)):
                 sim.violation('exitcode:wrong', {'exitcode': ec, 'want': want_ec})
         if not w.done():
             sim.violation('done:false-after-join', {})
